@@ -5,7 +5,11 @@
 (* under one lock) against the per-tick barrier BMSimBarrier, for several  *)
 (* simulations running concurrently in one process, plus the determinism   *)
 (* statement of C09 on the recorded per-tick state digests.                *)
-(*  {"ev":"run","np":[n1,n2,..]}     a new process-wide run with these sims *)
+(*  {"ev":"run","np":[n1,n2,..],"t0":[..]}  a new process-wide run with    *)
+(*       these simulations; t0 = tick each starts from (a forked VM         *)
+(*       continues its parent's tick count)                                 *)
+(*  {"ev":"call","d":x,"ref":y}  result of a single-shot simulation call    *)
+(*       run concurrently with others (d) and alone (ref)                   *)
 (*  {"ev":"pre"|"post","sim":s}                                            *)
 (*  {"ev":"start"|"end"|"got","sim":s,"p":p}                               *)
 (*  {"ev":"digest","sim":s,"tick":t,"d":x,"ref":y}  state digest after tick *)
@@ -33,10 +37,15 @@ TRun ==
   /\ np' = Trace[l].np /\ err' = ""
   /\ phase' = [s \in DOMAIN Trace[l].np |-> "idle"]
   /\ started' = [s \in DOMAIN Trace[l].np |-> {}] /\ ended' = [s \in DOMAIN Trace[l].np |-> {}]
-  /\ got' = [s \in DOMAIN Trace[l].np |-> {}] /\ tick' = [s \in DOMAIN Trace[l].np |-> 0]
+  /\ got' = [s \in DOMAIN Trace[l].np |-> {}] /\ tick' = [s \in DOMAIN Trace[l].np |-> Trace[l].t0[s]]
+
+TCall ==
+  /\ l <= Len(Trace) /\ Trace[l].ev = "call" /\ l' = l + 1
+  /\ UNCHANGED <<err, np, phase, started, ended, got, tick>>
+  /\ (Trace[l].d # Trace[l].ref) => PrintT(<<"REJECT", l, "result-differs-from-the-call-run-alone">>)
 
 TEvent ==
-  /\ l <= Len(Trace) /\ Trace[l].ev # "run" /\ l' = l + 1 /\ UNCHANGED np
+  /\ l <= Len(Trace) /\ Trace[l].ev \notin {"run", "call"} /\ l' = l + 1 /\ UNCHANGED np
   /\ IF err # "" THEN UNCHANGED <<err, phase, started, ended, got, tick>>
      ELSE LET e == Trace[l]
               s == e.sim
@@ -54,7 +63,7 @@ TEvent ==
               /\ tick' = IF e.ev = "post" THEN [tick EXCEPT ![s] = @ + 1] ELSE tick
 
 TraceInit == l = 1 /\ err = "" /\ np = <<>> /\ phase = <<>> /\ started = <<>> /\ ended = <<>> /\ got = <<>> /\ tick = <<>>
-TraceNext == TRun \/ TEvent
+TraceNext == TRun \/ TEvent \/ TCall
 TraceSpec == TraceInit /\ [][TraceNext]_tvars
 TraceAccepted == TLCGet("stats").diameter - 1 = Len(Trace)
 =============================================================================
